@@ -61,7 +61,11 @@ def func_sig(f):
     return f["name"] + ("(uint256)" if f["kind"] in ARG_KINDS else "()")
 
 
-ARG_KINDS = {"setv", "addv", "guard_arg", "assert_arg", "roll_arg", "warp_arg"}
+ARG_KINDS = {"setv", "addv", "guard_arg", "assert_arg", "roll_arg", "warp_arg", "setv_br", "setv_rel"}
+# functions that store a value of the transaction and then branch on it without changing the
+# storage differently in the two arms: two successful end states with the same storage terms
+# that differ only in the path condition on the stored symbol
+BRANCH_KINDS = {"setv_br": [("push", 4), "CALLDATALOAD"], "caller_br": ["CALLER"], "value_br": ["CALLVALUE"]}
 
 
 def _panic(code=1):
@@ -141,6 +145,34 @@ def gen_func_code(f, lab):
         it += require([("push", K), "BASEFEE", "EQ"]) + [("push", b), ("push", s), "SSTORE", "STOP"]
     elif k == "need_chainid":           # require(block.chainid == K); slot = b
         it += require([("push", K), "CHAINID", "EQ"]) + [("push", b), ("push", s), "SSTORE", "STOP"]
+    elif k in BRANCH_KINDS:
+        # slot = v; if (v <cmp> K) {} else {}     with v = arg / msg.sender / msg.value
+        #   "const": c   -> slot = c instead (the branch is then unrelated to the state)
+        #   "late": True -> if (v <cmp> K) { slot = v } else { slot = v }   (store after the branch)
+        src = BRANCH_KINDS[k]
+        store = ([("push", f["const"])] if "const" in f else list(src)) + [("push", s), "SSTORE"]
+        cmp_ = {"gt": [("push", K), "LT"], "lt": [("push", K), "GT"], "eq": [("push", K), "EQ"]}[f.get("cmp", "gt")]
+        arm = ["STOP"] if not f.get("late") else store + ["STOP"]
+        it += ([] if f.get("late") else store) + src + cmp_ + [("ref", ok), "JUMPI"] + arm + [("label", ok)] + arm
+    elif k == "setv_rel":
+        # payable: slot = arg; if (msg.value > K) {} else {}; require(arg == msg.value)
+        # the branch condition constrains the stored symbol only THROUGH the later condition arg == msg.value
+        def tail(sfx):
+            return [("push", 4), "CALLDATALOAD", "CALLVALUE", "EQ", ("ref", f"{lab}_t{sfx}"), "JUMPI"] + _revert() + [("label", f"{lab}_t{sfx}"), "STOP"]
+
+        if f.get("rel_first"):
+            # slot = arg; require(arg == msg.value); if (msg.value > K) {} else {}
+            # (the tying condition comes FIRST: the branch condition mentions msg.value only and is added later)
+            it += [("push", 4), "CALLDATALOAD", ("push", s), "SSTORE",
+                   ("push", 4), "CALLDATALOAD", "CALLVALUE", "EQ", ("ref", f"{lab}_eq"), "JUMPI"] + _revert() + [("label", f"{lab}_eq"),
+                   "CALLVALUE", ("push", K), "LT", ("ref", ok), "JUMPI", "STOP", ("label", ok), "STOP"]
+        else:
+            it += [("push", 4), "CALLDATALOAD", ("push", s), "SSTORE", "CALLVALUE", ("push", K), "LT", ("ref", ok), "JUMPI"] + tail("a") + [("label", ok)] + tail("b")
+    elif k == "xstep":                  # require(slot[s] == a); slot[t] = b
+        it += require([("push", s), "SLOAD", ("push", a), "EQ"]) + [("push", b), ("push", f["t"]), "SSTORE", "STOP"]
+    elif k == "xset_if":                # if (slot[s] == a) slot[t] = b
+        it += [("push", s), "SLOAD", ("push", a), "EQ", ("ref", ok), "JUMPI", "STOP", ("label", ok),
+               ("push", b), ("push", f["t"]), "SSTORE", "STOP"]
     elif k == "get":                    # view: return slot
         it += [("push", s), "SLOAD", "PUSH0", "MSTORE", ("push", 32), "PUSH0", "RETURN"]
     else:
